@@ -361,6 +361,213 @@ fn sequences(alpha: &[Step], len: usize) -> impl Iterator<Item = Case> + '_ {
     })
 }
 
+// ------------------------------------------------------------------ conflicts among threads
+// A conflicting write, the registration of a second arbiter, the first arbiter's answer to an older notice and the
+// periodic snapshot step run as tasks of the baton scheduler (yield points before every map / watcher-list lock).
+
+#[derive(Clone, Debug, Serialize, Deserialize, PartialEq)]
+pub enum CTask {
+    /// a client's stale versioned write to key a (it conflicts)
+    Writer { n: u8 },
+    /// a second arbiter sends `arbiter`
+    NewArbiter,
+    /// the first arbiter answers the notice of the conflict that waits since the prelude
+    Resolver { accept: bool },
+    /// the snapshot step (a snapshot of the database is queued)
+    Snapshot { reclaim: bool },
+}
+
+#[derive(Clone, Debug, Serialize, Deserialize)]
+pub struct CCase {
+    pub tasks: Vec<CTask>,
+    /// a conflict on key a waits for the arbiter before the tasks start
+    pub pending_before: bool,
+    pub schedule: Vec<u16>,
+}
+
+pub fn ccase_strategy() -> impl Strategy<Value = CCase> {
+    let task = prop_oneof![
+        3 => (1..3u8).prop_map(|n| CTask::Writer { n }),
+        3 => Just(CTask::NewArbiter),
+        2 => any::<bool>().prop_map(|accept| CTask::Resolver { accept }),
+        2 => any::<bool>().prop_map(|reclaim| CTask::Snapshot { reclaim }),
+    ];
+    (prop::collection::vec(task, 2..4), any::<bool>(), prop::collection::vec(prop_oneof![2 => Just(0u16), 3 => any::<u16>()], 0..40)).prop_map(|(tasks, pending_before, schedule)| CCase { tasks, pending_before, schedule })
+}
+
+pub fn run_conc(ctx: &Ctx, case: &CCase) -> Outcome {
+    use crate::sched;
+    let dir = ctx.fresh_dir();
+    let mut node = Node::boot_single(&dir);
+    let mut admin = Session::new();
+    admin.auth(&node);
+    admin.send(&node, "create-db d tok arbiter");
+    admin.send(&node, "use-db d tok");
+    let mut client = Session::new();
+    client.send(&node, "use-db d tok");
+    client.send(&node, "set a init");
+    client.send(&node, "set a base");
+    client.send(&node, "set other x");
+    let mut arb_a = Session::new();
+    arb_a.send(&node, "use-db d tok");
+    arb_a.send(&node, "arbiter");
+    arb_a.drain();
+    let mut first_notice: Option<Notice> = None;
+    if case.pending_before {
+        client.send(&node, "set-safe a 0 earlier");
+        first_notice = arb_a.drain().iter().filter_map(|l| parse_notice(l)).next();
+    }
+    node.pump();
+    let has_resolver = case.tasks.iter().any(|t| matches!(t, CTask::Resolver { .. })) && first_notice.is_some();
+    let mut arb_b = Session::new();
+    arb_b.send(&node, "use-db d tok");
+    let mut has_new_arbiter = false;
+    let mut tasks: Vec<Box<dyn FnOnce(&sched::TaskCtx) -> Vec<String> + Send>> = vec![];
+    let mut writer_no = 0;
+    let mut resolver_used = false;
+    let mut snapshot_used = false;
+    let mut arb_b_opt = Some(arb_b);
+    let mut arb_a_client: Option<Session> = None;
+    for t in case.tasks.iter() {
+        let dbs = node.dbs.clone();
+        match t {
+            CTask::Writer { n } => {
+                writer_no += 1;
+                let (n, wn) = (*n, writer_no);
+                let mut s = Session::new();
+                s.send(&node, "use-db d tok");
+                tasks.push(Box::new(move |t: &sched::TaskCtx| {
+                    let mut out = vec![];
+                    for i in 0..n {
+                        t.pause("cmd");
+                        let r = nundb::process_request::process_request(&format!("set-safe a 0 w{}x{}", wn, i), &dbs, &mut s.client);
+                        out.push(resp_text(&r));
+                    }
+                    out
+                }));
+            }
+            CTask::NewArbiter => {
+                if let Some(mut b) = arb_b_opt.take() {
+                    has_new_arbiter = true;
+                    tasks.push(Box::new(move |t: &sched::TaskCtx| {
+                        t.pause("cmd");
+                        let r = nundb::process_request::process_request("arbiter", &dbs, &mut b.client);
+                        let mut lines = b.drain();
+                        lines.insert(0, format!("#reply {}", resp_text(&r)));
+                        // the session stays open: what it is sent afterwards is read from the same receiver at the end
+                        NEW_ARBITER.lock().unwrap().replace(b);
+                        lines
+                    }));
+                }
+            }
+            CTask::Resolver { accept } => {
+                if let (Some(n), false) = (first_notice.clone(), resolver_used) {
+                    resolver_used = true;
+                    let accept = *accept;
+                    // a second session of the first arbiter's user answers (the registered one keeps listening)
+                    let mut s = Session::new();
+                    s.send(&node, "use-db d tok");
+                    tasks.push(Box::new(move |t: &sched::TaskCtx| {
+                        t.pause("cmd");
+                        let value = if accept { n.new_value.clone() } else { "arbiters-own".to_string() };
+                        let r = nundb::process_request::process_request(&format!("resolve {} d a {} {}", n.opp_id, n.version, value), &dbs, &mut s.client);
+                        vec![resp_text(&r)]
+                    }));
+                }
+            }
+            CTask::Snapshot { reclaim } => {
+                if !snapshot_used {
+                    snapshot_used = true;
+                    admin.send(&node, &format!("snapshot {}", reclaim));
+                    node.pump();
+                    let dir2 = dir.clone();
+                    tasks.push(Box::new(move |t: &sched::TaskCtx| {
+                        t.pause("cmd");
+                        crate::node::use_dir(&dir2);
+                        nundb::disk_ops::snapshot_all_pendding_dbs(&dbs);
+                        vec![]
+                    }));
+                }
+            }
+        }
+    }
+    let _ = &mut arb_a_client;
+    NEW_ARBITER.lock().unwrap().take();
+    let run = sched::run(tasks, &case.schedule, sched::lock_sites);
+    let (results, info) = match run {
+        Ok(x) => x,
+        Err(e) => {
+            eprintln!("C13: scheduler watchdog: {}", e);
+            std::process::exit(2);
+        }
+    };
+    node.pump();
+    let mut fail: Option<(String, String)> = None;
+    for r in results.iter() {
+        if let Err(p) = r {
+            fail = Some((format!("C13|threads|a-handler-panicked|{}", if p.contains("unwrap") { "unwrap-on-a-record-that-is-gone" } else { "other" }), format!("{}; trace {:?}", p, info.trace)));
+        }
+    }
+    // what is unresolved on the server at the end
+    let mut unresolved: Vec<(String, String)> = vec![];
+    if fail.is_none() {
+        if let (Response::Value { value, .. }, _) = admin.send(&node, "keys $conflicts_") {
+            for n in value.split(',').filter(|s| !s.is_empty()) {
+                if let (Response::Value { value, .. }, _) = admin.send(&node, &format!("get {}", n)) {
+                    if !value.starts_with("resolved") && value != "<Empty>" {
+                        unresolved.push((n.to_string(), value));
+                    }
+                }
+            }
+        }
+        // every arbiter that is registered has been sent every unresolved notice
+        let a_lines = arb_a.drain();
+        let mut seen_a: Vec<String> = a_lines.iter().map(|l| l.trim_end().to_string()).collect();
+        if let Some(n) = &first_notice {
+            seen_a.push(n.text.trim_end().to_string());
+        }
+        for (name, text) in unresolved.iter() {
+            if !seen_a.iter().any(|l| l == text.trim_end()) {
+                fail = Some(("C13|threads|unresolved-conflict-never-sent-to-the-registered-arbiter".to_string(), format!("{} = {:?} is unresolved, the arbiter that was registered all along received {:?}; trace {:?}", name, text, seen_a, info.trace)));
+            }
+        }
+        if let (true, Some(mut b)) = (has_new_arbiter, NEW_ARBITER.lock().unwrap().take()) {
+            let mut seen_b: Vec<String> = b.drain().iter().map(|l| l.trim_end().to_string()).collect();
+            for r in results.iter().flatten() {
+                for l in r.iter().filter(|l| l.starts_with("resolve ")) {
+                    seen_b.push(l.trim_end().to_string());
+                }
+            }
+            for (name, text) in unresolved.iter() {
+                if !seen_b.iter().any(|l| l == text.trim_end()) && fail.is_none() {
+                    fail = Some(("C13|threads|unresolved-conflict-never-sent-to-the-arbiter-that-registered-meanwhile".to_string(), format!("{} = {:?} is unresolved; the arbiter that registered while the conflict happened received {:?}; trace {:?}", name, text, seen_b, info.trace)));
+                }
+            }
+        }
+        // the key waits for the arbiter exactly while something is unresolved, with its pre-conflict value
+        let (val, ver) = get_safe(&mut admin, &node, "a");
+        let waiting = unresolved.iter().any(|(n, _)| n.starts_with("$conflicts_a_"));
+        if fail.is_none() && waiting && ver != -2 {
+            fail = Some(("C13|threads|key-left-conflict-resolution-with-a-conflict-unresolved".to_string(), format!("unresolved {:?} but key a is ({:?}, {}): later writes would be applied instead of queued; trace {:?}", unresolved, val, ver, info.trace)));
+        }
+        if fail.is_none() && !waiting && ver == -2 {
+            fail = Some(("C13|threads|key-still-in-conflict-resolution-with-nothing-unresolved".to_string(), format!("nothing unresolved but key a is ({:?}, {}); trace {:?}", val, ver, info.trace)));
+        }
+    }
+    let _ = has_resolver;
+    drop(node);
+    ctx.drop_dir(&dir);
+    let mut out = Outcome::ok(info.switches > 0);
+    if info.switches > 0 {
+        out.classes.push("conflict-tasks-interleaved");
+    }
+    out.counters.push(("c13_context_switches", info.switches));
+    out.fail = fail;
+    out
+}
+
+static NEW_ARBITER: std::sync::Mutex<Option<Session>> = std::sync::Mutex::new(None);
+
 pub fn run(ctx: &Ctx, rep: &mut Report) {
     crate::interpose::virtual_clock(true);
     let n = ctx.amount(100_000, 600_000);
@@ -373,10 +580,17 @@ pub fn run(ctx: &Ctx, rep: &mut Report) {
         }
         enumerate(ctx, rep, &format!("exhaustive-len{}", len), sequences(&alpha, len), |c| run_case(ctx, c));
     }
+    if rep.failures.is_empty() {
+        let n2 = ctx.amount(12_000, 200_000);
+        explore(ctx, rep, "conflicts-among-threads", n2, ccase_strategy(), |c| run_conc(ctx, c));
+    }
 
 }
 
 pub fn replay(ctx: &Ctx, _engine: &str, case: &J) -> Result<Option<(String, String)>, String> {
     crate::interpose::virtual_clock(true);
+    if _engine == "conflicts-among-threads" {
+        return replay_guarded::<CCase>(ctx, case, |c| run_conc(ctx, c));
+    }
     replay_guarded::<Case>(ctx, case, |c| run_case(ctx, c))
 }
